@@ -50,17 +50,23 @@ def tempo_items(c):
     """the field values of the structs json.Marshal walks, as a flat list of hex items (decoded by fill_vals in model/JsonStream.v)"""
     its = []
     if c["kind"] == "trace":
-        for j in c.get("jspans") or []:
-            f = j["f"]
-            its += f[:5] + [hexs(f[5]), hexs(f[6])] + f[7:9]
-            its.append(hexs(str(len(j["attrs"]))))
-            for k, v in j["attrs"]:
-                its += [k, v]
-            its.append(hexs(str(len(j["events"]))))
-            for t, n in j["events"]:
+        # the OTLP spans the fake service hands to the handler (toSpan of the harness): the model converts them itself
+        for sp in c.get("spans") or []:
+            its += [sp["tid"], sp["sid"], sp.get("pid") or "", sp["name"], hexs(str(sp["start"])), hexs(str(sp["end"]))]
+            attrs = sp.get("attrs") or []
+            its.append(hexs(str(len(attrs))))
+            for k, kind, v in attrs:
+                if kind == "d":
+                    v = hexs(str(float_bits(v)))
+                elif kind in ("b", "i"):
+                    v = hexs(v)
+                its += [k, hexs(kind), v]
+            evs = sp.get("events") or []
+            its.append(hexs(str(len(evs))))
+            for t, n in evs:
                 its += [hexs(t), n]
-            st = j.get("status") or []
-            its += [hexs("1"), hexs(st[0]), st[1]] if st else [hexs("0"), hexs("0"), ""]
+            st = sp.get("status", 0)
+            its += [hexs("0"), hexs("0"), ""] if st == 0 else [hexs("1"), hexs(str(st)), hexs('boom "x"') if st == 2 else ""]
         return its
     for b in c.get("traces") or []:
         for t in b or []:
